@@ -65,6 +65,16 @@ fn free_circuit(npis: usize, config: CircuitConfig, range: bool, pad: usize) -> 
     (b.build::<C>(), pis)
 }
 
+/// a proof of a free circuit carrying exactly the given public inputs (a "twin" of an honest proof: nothing but the
+/// binding to the child circuit can tell them apart)
+fn prove_free_with(data: &CircuitData<F, C, D>, pis: &[Target], values: &[F]) -> Result<Proof> {
+    let mut pw = PartialWitness::new();
+    for (t, v) in pis.iter().zip(values.iter()) {
+        pw.set_target(*t, *v)?;
+    }
+    data.prove(pw).map_err(|e| anyhow!("{e}"))
+}
+
 fn prove_free(data: &CircuitData<F, C, D>, pis: &[Target], tag: u64) -> Result<Proof> {
     let mut pw = PartialWitness::new();
     for (i, t) in pis.iter().enumerate() {
@@ -90,6 +100,9 @@ fn children() -> Result<BTreeMap<String, Child>> {
         let proof = lf.data.prove(pw).map_err(|e| anyhow!("canonical leaf proof: {e}"))?;
         m.insert("canonical".to_string(), Child { data: lf.data, proof });
     }
+    // every same-shape foreign proof carries the canonical proof's public inputs: a wrapper constraint can then never be
+    // the reason a foreign proof is rejected (seeded change C11: a slot the verifier loop skips)
+    let canon_pis: Vec<F> = m["canonical"].proof.public_inputs.clone();
     for (name, npis, cfg, range, pad) in [
         ("sameshape_unconstrained", 21usize, std_cfg.clone(), false, 0usize),
         ("sameshape_rangeonly", 21, std_cfg.clone(), true, 0),
@@ -99,7 +112,7 @@ fn children() -> Result<BTreeMap<String, Child>> {
         ("twenty_pis", 20, std_cfg.clone(), true, 0),
     ] {
         let (data, pis) = free_circuit(npis, cfg, range, pad);
-        let proof = prove_free(&data, &pis, 50)?;
+        let proof = if npis == canon_pis.len() { prove_free_with(&data, &pis, &canon_pis)? } else { prove_free(&data, &pis, 50)? };
         m.insert(name.to_string(), Child { data, proof });
     }
     // the repo's own leaf fragments WITHOUT connect_shared_targets (the leaf circuit with its cross-fragment constraints removed)
@@ -112,7 +125,7 @@ fn children() -> Result<BTreeMap<String, Child>> {
         BlockHeader::circuit_without_hash_binding(&t.block_header, &mut b);
         let data = b.build::<C>();
         let lf = leaf::Leaf { data, t };
-        let mut rng = StdRng::seed_from_u64(12);
+        let mut rng = StdRng::seed_from_u64(11);
         let w = leaf::honest(&mut rng, 0, true);
         let mut pw = PartialWitness::new();
         for (tt, v) in lf.inputs(&w) {
